@@ -138,7 +138,10 @@ def foreign_workload(ctx, which, mods, n, rt_classify=False):
         if hasattr(mod, 'setup'):
           with gin.config.interactive_mode():     # probe names of different checks may coincide
             mod.setup(fctx)
+        skip_kinds = getattr(mod, 'FOREIGN_SKIP_KINDS', ())
         for case in mod.iter_cases(fctx, rng, n):
+          if isinstance(case, dict) and case.get('kind') in skip_kinds:
+            continue      # scenarios that exist to exhibit a recorded finding of THAT property: not a workload for another property's monitor
           fctx.case_no += 1
           fctx.cur_case = case
           try:
